@@ -9,6 +9,9 @@ Shift(P, s) == LET n == Len(P) IN [k \in 1 .. n |-> LET old == ((k - 1 - s + n) 
 CRedirS == UNION { { [op |-> "redirect", P |-> Shift(P, s), attr |-> Attr(Len(P), a), i |-> i, sort |-> srt, shift |-> s] :
                        i \in Nodes(P), srt \in {0, 1}, a \in 0 .. 2, s \in 1 .. Len(P) - 1 }
                    : P \in UNION { Topos(n) : n \in 2 .. MaxNS } }
+\* root-to-tip paths reversed: every topology under every numbering (so that most paths are not numbered 0..n-1 in their tree), every tip, root types as above
+CRev == UNION { { [op |-> "reverse_path", P |-> P, attr |-> Attr(Len(P), a), i |-> i] : i \in Tips(P), a \in 0 .. 2 }
+                : P \in UNION { Topos(n) : n \in 1 .. MaxN } }
 Pos1(n)  == [k \in 1 .. n |-> <<10 * (k - 1), k - 1, 0>>]
 Base2(n) == [k \in 1 .. n |-> <<3 * (k - 1) + 1, 5, 7 * (k - 1) + 2>>]
 Ty1(n)   == [k \in 1 .. n |-> 1 + ((k - 1) % 3)]
@@ -26,7 +29,7 @@ CCat == UNION { UNION { { [op |-> "cat", P1 |-> P1, P2 |-> P2, i |-> i, j |-> j,
                            pre2 |-> IF (i + j + co) % 3 = 1 /\ Len(P2) >= 2 THEN 1 + ((i + j) % (Len(P2) - 1)) ELSE 0]
                           : i \in Nodes(P1), j \in Nodes(P2), tr \in {0, 1}, co \in {0, 1, 2, 3} }
                         : P2 \in UNION { Topos(n) : n \in 1 .. MaxN2 } } : P1 \in UNION { Topos(n) : n \in 1 .. MaxN1 } }
-AllSeq   == SetToSeq(CRedir \cup CCat) \o SetToSeq(CRedirS)
+AllSeq   == SetToSeq(CRedir \cup CCat) \o SetToSeq(CRedirS) \o SetToSeq(CRev)
 Numbered == [k \in 1 .. Len(AllSeq) |-> [cid |-> k] @@ AllSeq[k]]
 VARIABLE done
 Init == done = ndJsonSerialize(IOEnv.OUT, Numbered)
